@@ -141,6 +141,20 @@ func c02Helpers(c *core.Ctx, i int) {
 			continue
 		}
 		want := fmt.Sprintf("message(tag=%s,ts=0,rec=%s,opt=none)", hx(tag), recR)
+		// the helper model (coq/model/Helpers.v) with the clock reading the message carries: byte for byte
+		if !rec.HasMultiKeyMap() {
+			if ext {
+				var d protocol.MessageExt
+				if _, derr := d.UnmarshalMsg(wire); derr == nil {
+					c.Corr("c02-helper-model", "H_wire", []string{"message_ext", fmt.Sprint(d.Timestamp.Unix()), fmt.Sprint(d.Timestamp.Nanosecond()), hx(tag), rec.Desc(), "-"}, "ok("+hx(wire)+")")
+				}
+			} else {
+				var d protocol.Message
+				if _, derr := d.UnmarshalMsg(wire); derr == nil {
+					c.Corr("c02-helper-model", "H_wire", []string{"message", fmt.Sprint(d.Timestamp), "0", hx(tag), rec.Desc(), "-"}, "ok("+hx(wire)+")")
+				}
+			}
+		}
 		if ext {
 			c.Judge("c02-stamp", "judge_stamped", []string{"event", hx(wire), want, fmt.Sprint(lo.UnixNano()), fmt.Sprint(hi.UnixNano())}, "SendMessageExt: EventTime stamped within the call, MessageExt mode")
 		} else {
@@ -167,6 +181,10 @@ func c02Helpers(c *core.Ctx, i int) {
 	for j := range es {
 		es[j].Rec = gen.GenMap(r, 1, false)
 	}
+	multiEs := false
+	for _, e := range es {
+		multiEs = multiEs || e.Rec.HasMultiKeyMap()
+	}
 	norm := make([]gen.Entry, len(es))
 	for j, e := range es {
 		norm[j] = gen.Entry{Sec: e.Sec, Nsec: e.Nsec, Rec: e.Rec.Norm()}
@@ -183,6 +201,9 @@ func c02Helpers(c *core.Ctx, i int) {
 			c.Violation("judge-go", "c02-helper", "SendForward failed", nil)
 		} else {
 			c.Judge("c02-helper-mode", "judge_wire", []string{"forward", hx(wire), fmt.Sprintf("forward(tag=%s,entries=%s,opt={size=%d,chunk=,comp=})", hx(tag), gen.RenderEntries(norm, true), len(es))}, "SendForward: Forward mode with exactly the entries, size option = number of entries")
+			if !multiEs {
+				c.Corr("c02-helper-model", "H_wire", []string{"forward", "0", "0", hx(tag), gen.EntriesDesc(es), "-"}, "ok("+hx(wire)+")")
+			}
 		}
 	}
 	type packedCase struct {
@@ -222,6 +243,20 @@ func c02Helpers(c *core.Ctx, i int) {
 			continue
 		}
 		c.Judge("c02-helper-mode", "judge_wire", []string{"packed", hx(wire), fmt.Sprintf("packed(tag=%s,stream=%s,opt=%s)", hx(tag), hx(d.EventStream), pc.opt(len(d.EventStream)))}, pc.name+": PackedForward mode, options as documented")
+		switch pc.name {
+		case "SendPacked":
+			if !multiEs {
+				c.Corr("c02-helper-model", "H_wire", []string{"packed", "0", "0", hx(tag), gen.EntriesDesc(es), "-"}, "ok("+hx(wire)+")")
+			}
+		case "SendPackedFromBytes":
+			c.Corr("c02-helper-model", "H_wire", []string{"packed_bytes", "0", "0", hx(tag), hx(raw), "-"}, "ok("+hx(wire)+")")
+		case "SendCompressed":
+			if !multiEs { // gzip is a parameter of the model: it is given the stream the real gzip produced (C03 judges that stream)
+				c.Corr("c02-helper-model", "H_wire", []string{"compressed", "0", "0", hx(tag), gen.EntriesDesc(es), hx(d.EventStream)}, "ok("+hx(wire)+")")
+			}
+		case "SendCompressedFromBytes":
+			c.Corr("c02-helper-model", "H_wire", []string{"compressed_bytes", "0", "0", hx(tag), hx(raw), hx(d.EventStream)}, "ok("+hx(wire)+")")
+		}
 		switch pc.name {
 		case "SendPacked":
 			// the stream is the concatenation of the entries: judged by the specification parser
